@@ -364,6 +364,21 @@ def evidence_dir():
     return os.environ.get("VERIF_EVIDENCE_DIR") or os.path.join(VERIF_DIR, "evidence")
 
 
+def _abbreviate(x, max_str=400, max_list=60):
+    """Samples are for reading: long strings and long lists are cut (with their full length noted) so that one large
+    generated case (a 16 MB FASTA, say) cannot make the evidence file unwieldy. Replay files keep the full case."""
+    if isinstance(x, str):
+        return x if len(x) <= max_str else x[:max_str // 2] + f"...<{len(x)} characters in all>..." + x[-40:]
+    if isinstance(x, dict):
+        return {k: _abbreviate(v, max_str, max_list) for k, v in x.items()}
+    if isinstance(x, (list, tuple)):
+        y = [_abbreviate(v, max_str, max_list) for v in x[:max_list]]
+        if len(x) > max_list:
+            y.append(f"...<{len(x)} items in all>")
+        return y
+    return x
+
+
 def write_evidence(mod, stats, tier, seed, wall_s, bionumpy_file, n_violations):
     samples = list(stats.first_nontrivial)
     for s in stats.stride_samples:
@@ -373,7 +388,7 @@ def write_evidence(mod, stats, tier, seed, wall_s, bionumpy_file, n_violations):
         "evaluations": int(stats.evaluations),
         "distinct_nontrivial": len(stats.nontrivial),
         "rule": mod.RULE,
-        "samples": jsonable(samples[:8]),
+        "samples": _abbreviate(jsonable(samples[:8])),
         "class_histogram": dict(sorted(stats.classes.items())),
         "exhaustive_subdomains": stats.exhaustive,
         "exhaustive": bool(stats.exhaustive) and all(stats.exhaustive.values()) and not stats.budget_exhausted
